@@ -111,8 +111,8 @@ Ltac blind :=
   | |- post _ (match ?x with _ => _ end) => destruct x
   end.
 
-Lemma parse_proto_keeps s f proto :
-  post (fun f' => f_host f' = f_host f /\ a_mac (f_src f') = a_mac (f_src f)) (parse_proto s f proto).
+Lemma parse_proto_keeps fx s f proto :
+  post (fun f' => f_host f' = f_host f /\ a_mac (f_src f') = a_mac (f_src f)) (parse_proto fx s f proto).
 Proof.
   unfold parse_proto. blind; cbn [post]; cbn; auto.
 Qed.
